@@ -39,7 +39,10 @@ MANIFEST = {
             "properties, (c) no null / empty list inside dictionary values and (d) the `definition` of a marking-definition is "
             "of the marking type `definition_type` names are in valid_obj_x = valid_obj + leaf_extra + marking_match, "
             "which is what the ORACLE evaluates; the soundness theorems are about valid_obj and do NOT cover (b)-(d). Proved "
-            "about them: audited_validator_strengthens (valid_obj_x implies valid_obj) and three more refutations "
+            "about them: audited_clauses_are_all (valid_obj_x is the knot of valid_obj with exactly the clauses leaf_extra and "
+            "marking_match: with both trivial it IS valid_obj), audited_validator_strengthens (valid_obj_x implies valid_obj), "
+            "binary_clause_sound (kind level, any mode: with the strict decoder -- vr_b64_strict, the code since fix 9d2a776 -- "
+            "BinaryProperty.clean returns only text the base64 clause accepts; not lifted to objects) and three more refutations "
             "(strict_sound_refuted_binary_not_base64: lenient-decoder variant; _dictionary_null_value: pinned and repaired "
             "variant alike; _modified_before_created: the regenerated tables minus the time-order rule). CORRESPONDENCE / "
             "ORACLE ONLY (not proved): the uncovered classes, inputs outside req_scope, interoperability mode, allow_custom "
